@@ -9,6 +9,7 @@ REPO = os.environ.get('UFW_REPO', '/repo')
 WORK = os.path.join(VERIF, '.work')
 COQ = os.path.join(VERIF, 'coq')
 NPROC = 16
+DRIVER_TIMEOUT = int(os.environ.get('VERIF_DRIVER_TIMEOUT', '120'))
 
 CFLAGS = ['-std=gnu99', '-g', '-O1', '-fsanitize=address,undefined', '-fno-sanitize-recover=all',
           '-fno-omit-frame-pointer', '-D_DEFAULT_SOURCE', '-DSYSTEM_ENDIANNESS_LITTLE',
@@ -235,7 +236,7 @@ def run_driver(exe, lines, is_c):
                UBSAN_OPTIONS='print_stacktrace=0:exitcode=98')
     while pending:
         try:
-            p = subprocess.run([exe], input='\n'.join(pending) + '\n', capture_output=True, text=True, env=env, timeout=1800)
+            p = subprocess.run([exe], input='\n'.join(pending) + '\n', capture_output=True, text=True, env=env, timeout=DRIVER_TIMEOUT)
             rc, out, err = p.returncode, p.stdout, p.stderr
         except subprocess.TimeoutExpired as e:
             rc, out, err = 97, (e.stdout or b'').decode() if isinstance(e.stdout, bytes) else (e.stdout or ''), \
